@@ -66,7 +66,12 @@ struct Unit {
     Unit() : bank(0), gain(50), width(50), enabled(false), unison(1), type(0), lfo_shape(0), s(0), attack(10), premix(0), mixdown(0) { set_bank(0); detune = detune_default(0); }
     static const rtosc::Ports ports;
 };
-struct Deps { Unit units[2]; int master; Deps() : master(100) {} static const rtosc::Ports ports; };
+// a three-level tree whose levels each have an "enabled" toggle (same name on purpose), a directory with a declared
+// dependency, and a component enabled from inside through rSelf(..., rEnabledBy(enabled)) (doc/Guide.adoc, "enable self by port")
+struct Filter { int cutoff; Filter() : cutoff(64) {} static const rtosc::Ports ports; };
+struct Comp { int x; bool enabled; Comp() : x(0), enabled(false) {} static const rtosc::Ports ports; };
+struct Voice { bool enabled; int mode, detune; Filter filter; Comp comp; Voice() : enabled(false), mode(0), detune(0) {} static const rtosc::Ports ports; };
+struct Deps { Unit units[2]; int master; bool enabled; Voice voice; Deps() : master(100), enabled(false) {} static const rtosc::Ports ports; };
 
 #define rObject Osc
 inline const rtosc::Ports Osc::ports = {
@@ -164,10 +169,36 @@ inline const rtosc::Ports Unit::ports = {
 };
 #undef UINT
 #undef UCB
+#define OCB(T, body) [](const char *m, rtosc::RtData &d) { T *o = (T *)d.obj; const char *a_ = rtosc_argument_string(m); bool set = *a_ != 0; int v = set && *a_ == 'i' ? rtosc_argument(m, 0).i : 0; bool on = set && *a_ == 'T'; (void)v; (void)on; body }
+#define OINT(T, field, onset) OCB(T, if (set) { onset; d.broadcast(d.loc, "i", o->field); } else d.reply(d.loc, "i", o->field);)
+#define OTOG(T, field, onset) OCB(T, if (set) { onset; d.broadcast(d.loc, o->field ? "T" : "F"); } else d.reply(d.loc, o->field ? "T" : "F");)
+#define CLAMP(v, lo, hi) ((v) < (lo) ? (lo) : (v) > (hi) ? (hi) : (v))
+inline const rtosc::Ports Filter::ports = {
+    {"cutoff::i", rProp(parameter) rMap(min, 0) rMap(max, 127) rDefault(64) rDoc("cutoff"), NULL, OINT(Filter, cutoff, o->cutoff = CLAMP(v, 0, 127))},
+};
+#define rObject Comp
+inline const rtosc::Ports Comp::ports = {
+    rSelf(Comp, rEnabledBy(enabled)),
+    {"amount::i", rProp(parameter) rMap(min, 0) rMap(max, 9) rDefault(0) rDoc("parameter of a component that is enabled from inside (sorts before its toggle)"), NULL, OINT(Comp, x, o->x = CLAMP(v, 0, 9))},
+    {"enabled::T:F", rProp(parameter) rDefault(false) rDoc("switching the component on gives a fresh component"), NULL, OTOG(Comp, enabled, o->enabled = on; if (on) o->x = 0)},
+};
+#undef rObject
+#define rObject Voice
+inline const rtosc::Ports Voice::ports = {
+    // dependants first, as in Unit
+    {"detune::i", rProp(parameter) rMap(min, 0) rMap(max, 24) rDepends(mode) rDefault(0) rDoc("detune: reset by mode"), NULL, OINT(Voice, detune, o->detune = CLAMP(v, 0, 24))},
+    {"enabled::T:F", rProp(parameter) rDepends(mode) rDefault(false) rDoc("enables the filter (fresh when switched on); reset by mode; named like the toggle one level up"), NULL, OTOG(Voice, enabled, o->enabled = on; if (on) o->filter = Filter())},
+    {"mode::i", rProp(parameter) rMap(min, 0) rMap(max, 3) rDefault(0) rDoc("mode: resets detune and switches the filter off"), NULL, OINT(Voice, mode, o->mode = CLAMP(v, 0, 3); o->detune = 0; o->enabled = false)},
+    rRecur(filter, rEnabledBy(enabled), "filter, enabled by the voice's toggle"),
+    rRecur(comp, "component enabled from inside"),
+};
+#undef rObject
 #define rObject Deps
 inline const rtosc::Ports Deps::ports = {
     rRecurs(units, 2, "units"),
-    rParamI(master, rLinear(0, 200), rDefault(100), "master"),
+    rRecur(voice, rEnabledBy(enabled), rDepends(master), "voice: enabled by the root toggle, declared to depend on master"),
+    {"master::i", rProp(parameter) rMap(min, 0) rMap(max, 200) rDefault(100) rDoc("master: resets the voice's detune"), NULL, OINT(Deps, master, o->master = CLAMP(v, 0, 200); o->voice.detune = 0)},
+    {"enabled::T:F", rProp(parameter) rDefault(false) rDoc("enables the voice (fresh when switched on)"), NULL, OTOG(Deps, enabled, o->enabled = on; if (on) o->voice = Voice())},
 };
 #undef rObject
 
@@ -269,6 +300,16 @@ inline const std::vector<Param> &deps_params() {
         ip("s", [](Unit *x) { return x->s; }, [](Unit *) { return 0; }, 0, 2);
         ip("attack", [](Unit *x) { return x->attack; }, [](Unit *x) { return Unit::attack_default(x->s); }, 0, 100); }
     P.push_back({"/master", 1, 'i', [](void *o, int) { return vi(((Deps *)o)->master); }, [](void *, int) { return vi(100); }, yes, 0, 200, 0, {}});
+#define D(o) ((Deps *)o)
+    auto von = [](void *o) { return D(o)->enabled; };
+    P.push_back({"/enabled", 1, 'T', [](void *o, int) { return vb(D(o)->enabled); }, [](void *, int) { return vb(false); }, yes, 0, 1, 0, {}});
+    P.push_back({"/voice/mode", 1, 'i', [](void *o, int) { return vi(D(o)->voice.mode); }, [](void *, int) { return vi(0); }, von, 0, 3, 0, {}});
+    P.push_back({"/voice/enabled", 1, 'T', [](void *o, int) { return vb(D(o)->voice.enabled); }, [](void *, int) { return vb(false); }, von, 0, 1, 0, {}});
+    P.push_back({"/voice/detune", 1, 'i', [](void *o, int) { return vi(D(o)->voice.detune); }, [](void *, int) { return vi(0); }, von, 0, 24, 0, {}});
+    P.push_back({"/voice/filter/cutoff", 1, 'i', [](void *o, int) { return vi(D(o)->voice.filter.cutoff); }, [](void *, int) { return vi(64); }, [](void *o) { return D(o)->enabled && D(o)->voice.enabled; }, 0, 127, 0, {}});
+    P.push_back({"/voice/comp/enabled", 1, 'T', [](void *o, int) { return vb(D(o)->voice.comp.enabled); }, [](void *, int) { return vb(false); }, [](void *o) { return D(o)->enabled && D(o)->voice.comp.enabled; }, 0, 1, 0, {}});
+    P.push_back({"/voice/comp/amount", 1, 'i', [](void *o, int) { return vi(D(o)->voice.comp.x); }, [](void *, int) { return vi(0); }, [](void *o) { return D(o)->enabled && D(o)->voice.comp.enabled; }, 0, 9, 0, {}});
+#undef D
 #undef U
     return P;
 }
